@@ -3,7 +3,9 @@ CONSTANTS
   NL = 0
   FailAt = 0
   MaxRx = 2
+  LoadOK = TRUE
+  BindFirst = FALSE
   EmptyQuits = FALSE
-INVARIANTS ServesWhileOpen CleanupOnError AllServing CollectsAll NoListenersNoReturn
+INVARIANTS NeverServesBare FailedLoadNeverListened ServesWhileOpen CleanupOnError AllServing CollectsAll NoListenersNoReturn
 PROPERTIES WaitReturns
 CHECK_DEADLOCK FALSE
